@@ -175,6 +175,9 @@ class UEval:
             return (lit(), self._elem(inner, node.args[0]))
         if isinstance(node, ast.Call) and call_name(node) == "zip":
             return tuple(self._elem(self.ev(a), a) for a in node.args)
+        if isinstance(node, ast.Call) and call_name(node) in ("reversed", "sorted", "list", "tuple", "iter") and node.args:
+            # same elements in another order / container
+            return self._elem(self.ev(node.args[0]), node.args[0])
         return it if isinstance(it, Q) else None
 
     def join(self, a, b, node, name=""):
